@@ -57,6 +57,9 @@ size_t splinetable<Alloc>::estimateMemory(const std::string& filePath,
 	std::vector<uint32_t> order = readOrder(fits,dim);
 	order[convolution_dimension] += n_convolution_knots-1;
 	
+	//count the auxiliary keys while the primary HDU, which holds them, is current
+	uint32_t naux = countAuxKeywords(fits);
+	
 	size_t size = sizeof(splinetable<Alloc>); //main object
 	
 	//count knots
@@ -90,7 +93,6 @@ size_t splinetable<Alloc>::estimateMemory(const std::string& filePath,
 	size += dim*sizeof(uint64_t); //naxes
 	size += dim*sizeof(uint64_t); //strides
 	
-	uint32_t naux = countAuxKeywords(fits);
 	//pessimistically assume all keys and values are maximal length
 	size += naux*(FLEN_KEYWORD+FLEN_VALUE)*sizeof(char);
 	
